@@ -389,7 +389,18 @@ def _probe(ex, ref, fs, facts, cap, rng, cnt):
     except Exception:
         cnt('probe_absent')
         return
+    # What any lexicographic implementation must satisfy for the LAST problem it handed to the back end:
+    #   lower bound: every matching of the reference final optimal set is a point of it;
+    #   upper bound: every point of it is valid (stable under -stab) and optimal for all elementary steps BEFORE the
+    #   last solve (whether the last optimum is also frozen into that object afterwards is the implementation's
+    #   business).  When the number of solves differs from the number of steps the upper bound is the plain feasible set.
     expect = set(ref['final'])
+    steps_ = ref.get('steps') or []
+    ev_ = ex['events']
+    if steps_ and len(ev_) == len(steps_) and len(steps_) >= 2:
+        upper = set(ref['sets'][len(steps_) - 2])
+    else:
+        upper = set(ref['feasible'])
     every = rm.all_acceptable_assignments(inst)
     if len(every) > cap:
         rng = rng or random.Random(0)
@@ -420,17 +431,17 @@ def _probe(ex, ref, fs, facts, cap, rng, cnt):
         if ok is None:
             cnt('probe_undecided')
             continue
-        if (ok and m not in expect) or (not ok and m in expect):
+        if (ok and m not in upper) or (not ok and m in expect):
             if not confirmed(m, ok):
                 continue
-        if ok and m not in expect:
+        if ok and m not in upper:
             why = rm.validity(inst, m, opts['pc'])
             if why is not None:
                 prop, what = 'C01', 'invalid (%s)' % why
             elif opts['stab'] and not rm.is_stable(inst, m):
                 prop, what = 'C05', 'unstable (blocked by %s)' % (rm.blocking_pairs(inst, m, True)[0],)
             else:
-                prop, what = ('C04' if len(crits) > 1 else 'C03'), 'not optimal for the criteria %s' % [(c[0], c[2]) for c in crits]
+                prop, what = ('C04' if len(crits) > 1 else 'C03'), 'not optimal for the criteria that were completed before the last solve, %s' % [(c[0], c[2]) for c in crits]
             fs.append(F(prop, 'pin_probe', 'the final integer program accepts %s, which is %s' % (list(m), what),
                         crit_names=[c[0] for c in crits]))
             return
